@@ -243,8 +243,8 @@ def one_case(ctx, world, vecs, full, vector):
     check_full(ctx, world, sol, samples, weights, mapv, med, cls, vector)
 
 
-def check_full(ctx, world, sol, samples, weights, mapv, med, cls, vector, events=None):
-    s0 = sol['solution0']
+def check_full(ctx, world, sol, samples, weights, mapv, med, cls, vector, events=None, key='solution0'):
+    s0 = sol[key]
     ok = arr_close(s0['tracedata'], samples, 1e-14) and arr_close(s0['weights'], weights, 1e-14)
     ctx.verdict('solution_dict_traces', ok, cls=cls, detail='solution tracedata/weights differ', vector=vector)
     nat, binned = world.twin_spectrum(mapv)
@@ -272,11 +272,39 @@ def check_full(ctx, world, sol, samples, weights, mapv, med, cls, vector, events
                                       float(rec['sigma_p']), float(rec['mean']), cls + ':derived:' + d, vector))
 
 
+def multimode_case(ctx, world, cases, vector):
+    """Two (or more) MultiNest modes with different sample counts in one output: one solution per mode."""
+    parts = [build_samples(world, c) for c in cases]
+    modes = []
+    for k, (smp, wts) in enumerate(parts):
+        modes += mn_modes(smp, wts, k + 1)
+    cls = 'multinest:modes=%d:n=%s:fit' % (len(cases), '/'.join(str(len(c[0]['w'])) for c in cases))
+    try:
+        sol = world.run(modes, True)
+        got = []
+        for idx, opt_map, opt_median, extras in world.opt.get_solution():
+            got.append((idx, list(opt_map), list(opt_median), dict(extras)))
+    except Exception as e:   # noqa
+        ctx.verdict('summary_produced', False, cls=cls, detail='fit raised %r' % e, vector=vector)
+        return
+    ctx.verdict('one_solution_per_mode', sorted(g[0] for g in got) == list(range(len(cases))), cls=cls,
+                detail='solutions %r for %d modes' % ([g[0] for g in got], len(cases)), vector=vector)
+    for idx, opt_map, opt_median, extras in got:
+        if idx >= len(cases):
+            continue
+        smp, wts = parts[idx]
+        fitp = extras['fit_params']
+        mapv = check_summary(ctx, world, cases[idx], fitp, smp, wts, world.opt.get_samples(idx),
+                             world.opt.get_weights(idx), cls, vector)
+        med = [float(fitp[n]['value']) for n in world.names]
+        check_full(ctx, world, sol, smp, wts, mapv, med, cls, dict(vector, w=cases[idx][0]['w']), key='solution%d' % idx)
+
+
 # ----------------------------------------------------------------------------------------------
 # binding A
 # ----------------------------------------------------------------------------------------------
 
-def run_vectors(ctx, vecs, nfull, rng):
+def run_vectors(ctx, vecs, nfull, rng, nmulti=30):
     groups = {}
     for v in vecs:
         groups.setdefault(tuple(v['w']), []).append(v)
@@ -304,6 +332,23 @@ def run_vectors(ctx, vecs, nfull, rng):
                 world = worlds[(sampler, dims)]
                 vector = dict(kind='vector', sampler=sampler, cols=case, full=full, w=case[0]['w'])
                 one_case(ctx, world, case, full, vector)
+        # multi-modal MultiNest output: modes of different sample counts
+        two = [c for c in cases if len(c) == 2]
+        byn = {}
+        for c in two:
+            byn.setdefault(len(c[0]['w']), []).append(c)
+        sizes = sorted(byn)
+        nmm = 0
+        for k in range(nmulti):
+            if len(sizes) < 2:
+                break
+            na, nb = rng.sample(sizes, 2)
+            group = [rng.choice(byn[na]), rng.choice(byn[nb])]
+            if k % 3 == 2:
+                group.append(rng.choice(byn[rng.choice(sizes)]))
+            multimode_case(ctx, worlds[('multinest', 2)], group, dict(kind='multimode', sampler='multinest', cases=group))
+            nmm += 1
+        ctx.note('%d multi-modal MultiNest outputs' % nmm)
         return len(cases)
     finally:
         shutil.rmtree(tmpdir, ignore_errors=True)
@@ -449,7 +494,7 @@ def run(ctx):
     if not q:
         res2 = ctx.check_spec('export-small', 'MC_Posterior', 'EX_Posterior_quick.cfg', workers=1)
         vecs += res2.tagged('VEC')
-    n = run_vectors(ctx, vecs, 120 if q else 1500, rng)
+    n = run_vectors(ctx, vecs, 120 if q else 1500, rng, 30 if q else 300)
     ctx.note('%d exported columns stacked into %d fits' % (len(vecs), n))
     run_random(ctx, 60 if q else 600, random.Random(ctx.seed * 9001 + 10))
 
@@ -470,6 +515,12 @@ def replay(ctx, violations):
                 dims = len(vec['cols'])
                 world = World(vec['sampler'], dims, tmpdir, multimodes=(dims == 2))
                 one_case(ctx, world, vec['cols'], vec['full'], vec)
+            elif vec.get('kind') == 'multimode':
+                key = repr(vec)
+                if key in seen:
+                    continue
+                seen.add(key)
+                multimode_case(ctx, World('multinest', 2, tmpdir, multimodes=True), vec['cases'], vec)
             elif vec.get('kind') == 'random':
                 key = ('random', vec['seed'])
                 if key in seen:
